@@ -2,6 +2,7 @@
    hand-written model uses.  An edit to the code that changes the expression changes the generated file, and these
    proofs no longer check. *)
 From Coq Require Import ZArith Bool Lia Arith List.
+From SZ Require Import Base.BridgeTac.
 From SZ Require Import Gen.KSlice.
 From SZ Require Import Base.Values.
 From SZ Require Import Sync.Nodes.
@@ -14,32 +15,25 @@ Import ListNotations.
 Lemma bridge_slice_pass (n start step : nat) : (1 <= step)%nat ->
   gen_slice_pass (Z.of_nat n) (Z.of_nat start) (Z.of_nat step) = slice_pass start step n.
 Proof.
-  intros Hs. unfold gen_slice_pass, slice_pass.
-  destruct (Nat.leb_spec start n) as [H|H].
-  - replace (Z.of_nat n >=? Z.of_nat start)%Z with true by (symmetry; apply Z.geb_le; lia).
-    cbn [andb]. rewrite <- Nat2Z.inj_sub by exact H. rewrite <- Nat2Z.inj_mod.
-    destruct (Nat.eqb_spec ((n - start) mod step) 0) as [E|E].
-    + rewrite E. reflexivity.
-    + apply Z.eqb_neq. lia.
-  - replace (Z.of_nat n >=? Z.of_nat start)%Z with false; [reflexivity|].
-    symmetry. rewrite Z.geb_leb. apply Z.leb_gt. lia.
+  intros Hs. unfold gen_slice_pass, slice_pass. cbv zeta.
+  destruct (Nat.leb_spec start n) as [H|H]; cbn [andb].
+  - rewrite <- ?Nat2Z.inj_sub by exact H. rewrite <- ?Nat2Z.inj_mod. bool_eq.
+  - bool_eq.
 Qed.
+
+(* the counter is advanced by one before _check_end and before the emission *)
+Lemma bridge_slice_next (n : nat) : gen_slice_next (Z.of_nat n) = Z.of_nat (S n).
+Proof. unfold gen_slice_next. cbv zeta. lia. Qed.
 
 Lemma bridge_slice_done (n : nat) (stop : option nat) :
   gen_slice_done (Z.of_nat (S n)) (option_map Z.of_nat stop) =
   match stop with Some e => (e <=? S n)%nat | None => false end.
-Proof.
-  destruct stop as [e|]; cbn [gen_slice_done option_map]; [|reflexivity].
-  rewrite Z.geb_leb. destruct (Nat.leb_spec e (S n)); [apply Z.leb_le | apply Z.leb_gt]; lia.
-Qed.
+Proof. destruct stop as [e|]; cbn [gen_slice_done option_map]; cbv zeta; bool_eq. Qed.
 
 Lemma bridge_slice_finished (n : nat) (stop : option nat) :
   gen_slice_finished (Z.of_nat n) (option_map Z.of_nat stop) =
   match stop with Some e => (e <=? n)%nat | None => false end.
-Proof.
-  destruct stop as [e|]; cbn [gen_slice_finished option_map]; [|reflexivity].
-  rewrite Z.geb_leb. destruct (Nat.leb_spec e n); [apply Z.leb_le | apply Z.leb_gt]; lia.
-Qed.
+Proof. destruct stop as [e|]; cbn [gen_slice_finished option_map]; cbv zeta; bool_eq. Qed.
 
 (* the model's slice update is exactly: nothing once finished; otherwise gate, count, check, then pass on *)
 Lemma bridge_slice_update start stop step s p x m : (1 <= step)%nat ->
